@@ -26,6 +26,7 @@ import (
 	"github.com/99designs/gqlgen/graphql/handler/extension"
 	"github.com/99designs/gqlgen/graphql/handler/lru"
 	"github.com/99designs/gqlgen/graphql/handler/transport"
+	legacy "github.com/99designs/gqlgen/handler"
 	"github.com/gorilla/websocket"
 	"github.com/vektah/gqlparser/v2/ast"
 
@@ -34,7 +35,15 @@ import (
 	"verif/work/farm/cur/tx"
 )
 
-func newServer(l limitCfg) *handler.Server {
+func newServer(l limitCfg) http.Handler {
+	if l.Legacy {
+		return legacy.GraphQL(tx.NewExecutableSchema(tx.Config{Resolvers: txharness.Stub()}),
+			legacy.UploadMaxSize(l.MaxUploadSize), legacy.UploadMaxMemory(l.MaxMemory), legacy.RecoverFunc(txharness.RecoverFunc))
+	}
+	return newModernServer(l)
+}
+
+func newModernServer(l limitCfg) *handler.Server {
 	srv := handler.New(tx.NewExecutableSchema(tx.Config{Resolvers: txharness.Stub()}))
 	// SSE and multipart/mixed first, otherwise POST shadows them
 	srv.AddTransport(transport.SSE{})
@@ -187,7 +196,7 @@ func makeRequest(in *httpInput, ctx context.Context) *http.Request {
 
 type httpWorker struct {
 	col     *collector
-	servers []*handler.Server
+	servers []http.Handler
 	tmp     string
 	real    *httptest.Server
 	realMu  sync.Mutex
